@@ -48,15 +48,26 @@ def nontrivial_call(sig, args, kw):
 
 # ----------------------------------------------------------------------------- direct
 
+RECENT = {}     # parameter names -> signatures wrapped recently in this process (same co_varnames)
+
+
 def direct_batch(ctx, st, cases, tag, two_step=False):
-    """cases: list of (sig, args, kw). Returns False when enough violations were recorded."""
+    """cases: list of (sig, args, kw[, history]). `history` = signatures of same-named functions to wrap
+    first (a replayed cache-dependent failure). Returns False when enough violations were recorded."""
     lines = []
-    for i, (sig, args, kw) in enumerate(cases):
+    for i, (sig, args, kw, *_) in enumerate(cases):
         lines += G.bind_scn(str(i), sig, args, kw)
     mod = run_driver(lines, **DRV)
-    for i, (sig, args, kw) in enumerate(cases):
+    for i, (sig, args, kw, *hist) in enumerate(cases):
+        for h in (hist[0] if hist else ()):
+            I.impl_direct(G.make_function(h), (), ())
         f = G.make_function(sig)
         impl = I.impl_direct(f, args, kw)
+        names = tuple(n for n, _, _ in sig)
+        ST_HISTORY[:] = [h for h in RECENT.get(names, []) if h != sig][-6:]
+        if RECENT.setdefault(names, [])[-1:] != [sig]:
+            RECENT[names].append(sig)
+            del RECENT[names][:-8]
         if two_step and I.impl_two_step(f, args, kw) != impl:
             _direct_violation(ctx, st, sig, args, kw, impl, "two-step=" + I.impl_two_step(f, args, kw), False,
                               "corr:C07:callable_method-vs-bind_expected", no_input=True)
@@ -96,6 +107,9 @@ def direct_batch(ctx, st, cases, tag, two_step=False):
     return True
 
 
+ST_HISTORY = []
+
+
 def _widen_direct(sig):
     for args, kw in G.call_shapes(sig, 4, 3, unknown=("u1", "u2")):
         f = G.make_function(sig)
@@ -120,11 +134,15 @@ def _direct_violation(ctx, st, sig, args, kw, impl, expected, corner, why, no_in
         f"# observed : {impl}",
         f"# expected : {expected}" + ("   (corner: TypeError also accepted)" if corner else ""),
         "# names are printed as ids: " + ", ".join(f"{n}={G.NAME_ID[n]}" for n, _, _ in sig),
-        "json: " + json.dumps(dict(kind="direct", sig=[list(p) for p in sig], args=list(args), kw=[list(x) for x in kw])),
+        "# same-named functions wrapped earlier in the process (relevant only if the adapter cache confuses them): "
+        + "; ".join(f"def f({G.sig_text(h)})" for h in ST_HISTORY),
+        "json: " + json.dumps(dict(kind="direct", sig=[list(p) for p in sig], args=list(args), kw=[list(x) for x in kw],
+                                   history=[[list(p) for p in h] for h in ST_HISTORY])),
     ]
     h = scn_hash(json.dumps([sig, args, kw]))
     rp = ctx.write_replay(f"direct-{h}.replay.txt", "\n".join(body) + "\n")
-    ctx.violation(rp, why, no_input=no_input)
+    if all(v[0] != rp for v in ctx.violations):
+        ctx.violation(rp, why, no_input=no_input)
 
 
 # ----------------------------------------------------------------------------- externals
@@ -364,6 +382,79 @@ def _mach_violation(ctx, st, scn, r, exp, mfr, why, no_input):
     ctx.violation(rp, why[0], no_input=no_input)
 
 
+# ----------------------------------------------------------------------------- layering (EventData.extended_kwargs)
+
+def layering_check(ctx, st, n):
+    """`EventData.extended_kwargs` on a `TriggerData` built by hand, whose keywords may carry reserved
+    names (the filter in `Event.__call__` bypassed): the built-ins are assigned last. Uses the documented
+    dataclasses `TriggerData`/`EventData`, only when importable; model `extendedKwargs` (theorem C07_layering)."""
+    try:
+        from statemachine import State, StateMachine
+        from statemachine.event_data import EventData, TriggerData
+    except ImportError:
+        return True
+
+    class M(StateMachine):
+        s0 = State(initial=True)
+        s1 = State(final=True)
+        go = s0.to(s1)
+
+    sm = M()
+    tr = M.s0.transitions[0]
+    lines, cases = [], []
+    for i in range(n):
+        rng = random.Random(f"{ctx.seed}:C07lay:{i}")
+        cand = list(G.RESERVED) + G.USER_NAMES[:5]
+        rng.shuffle(cand)
+        kw = [(k, 500 + G.NAME_ID[k]) for k in cand[:rng.randint(0, 8)]]
+        td = TriggerData(machine=sm, event=M.go, args=(), kwargs=dict(kw))
+        ed = EventData(trigger_data=td, transition=tr)
+        ek = ed.extended_kwargs
+        want = {"event_data": ed, "machine": sm, "event": M.go, "model": sm.model, "transition": tr,
+                "state": tr.source, "source": tr.source, "target": tr.target}
+        obs = []
+        for k, v in ek.items():
+            if k in want:
+                obs.append((k, 300 + G.NAME_ID[k] if v is want[k] else (v if isinstance(v, int) else -1)))
+            else:
+                obs.append((k, v))
+        impl = ",".join(f"{G.NAME_ID[k]}:{v}" for k, v in sorted(obs, key=lambda e: G.NAME_ID[e[0]]))
+        spec = dict(kw)
+        spec.update({r: 300 + G.NAME_ID[r] for r in G.RESERVED})
+        sp = ",".join(f"{G.NAME_ID[k]}:{v}" for k, v in sorted(spec.items(), key=lambda e: G.NAME_ID[e[0]]))
+        lines += [f"scn layer l{i}", G.kw_line(kw), "b " + " ".join(f"{G.NAME_ID[r]}={300 + G.NAME_ID[r]}" for r in G.RESERVED), "end"]
+        cases.append((kw, impl, sp, dict(td.kwargs) == dict(kw)))
+    mod = run_driver(lines, **DRV)
+    for i, (kw, impl, sp, untouched) in enumerate(cases):
+        m = mod.get(f"l{i}", ["ek "])[0][3:]
+        m = ",".join(sorted((e for e in m.split(",") if e), key=lambda e: int(e.split(":")[0])))
+        st.evaluations += 1
+        st.inc("layering")
+        if any(k in G.RESERVED for k, _ in kw):
+            st.nontrivial.add(hash(("lay", tuple(kw))))
+        if impl != sp or not untouched:
+            txt = "\n".join([
+                "# kind: spec-fails-on-implementation (EventData.extended_kwargs)",
+                "# why: a built-in name is overridden by a keyword stored in trigger_data.kwargs" if untouched else
+                "# why: extended_kwargs modified trigger_data.kwargs",
+                "# class M(StateMachine): s0 = State(initial=True); s1 = State(); go = s0.to(s1)",
+                "# sm = M(); tr = M.s0.transitions[0]",
+                f"# ed = EventData(trigger_data=TriggerData(machine=sm, event=M.go, args=(), kwargs={dict(kw)}), transition=tr)",
+                "# ed.extended_kwargs, with the genuine built-in objects written as 300+id and names as ids:",
+                f"# observed : {impl}", f"# expected : {sp}"]) + "\n"
+            rp = ctx.write_replay(f"layer-{scn_hash(txt)}.replay.txt", txt)
+            ctx.violation(rp, "built-in overridden in extended_kwargs")
+            return False
+        if m != impl:
+            txt = (f"# kind: model-implementation-disagreement\n# corr:C07:extended_kwargs vs SMV.Bind.extendedKwargs no longer checks\n"
+                   f"# kwargs={dict(kw)}\n# implementation: {impl}\n# model: {m}\n")
+            rp = ctx.write_replay(f"layer-{scn_hash(txt)}.replay.txt", txt)
+            ctx.violation(rp, "extended_kwargs differs from the model", no_input=True)
+            return False
+        st.validated += 1
+    return True
+
+
 # ----------------------------------------------------------------------------- corpus / replay
 
 def load_cases(paths):
@@ -373,7 +464,8 @@ def load_cases(paths):
             if l.startswith("json: "):
                 j = json.loads(l[6:])
                 if j.get("kind") == "direct":
-                    direct.append((tuple(tuple(x) for x in j["sig"]), tuple(j["args"]), tuple(tuple(x) for x in j["kw"])))
+                    direct.append((tuple(tuple(x) for x in j["sig"]), tuple(j["args"]), tuple(tuple(x) for x in j["kw"]),
+                                   [tuple(tuple(x) for x in h) for h in j.get("history", [])]))
                 elif "cbs" in j:
                     mach.append(j)
     return direct, mach
@@ -448,7 +540,7 @@ def run(ctx):
 
     # 3. direct, random larger signatures with names from user ∪ reserved pools; both entry points
     t0 = time.time()
-    target = 6000 if quick else 120000
+    target = 30000 if quick else 300000
     i = 0
     while i < target and ctx.left() > 25:
         batch = []
@@ -464,13 +556,19 @@ def run(ctx):
 
     # 4. binding depends only on the callable's own signature
     t0 = time.time()
-    if not locality_direct(ctx, st, "C07loc", 150 if quick else 3000):
+    if not locality_direct(ctx, st, "C07loc", 500 if quick else 6000):
         return done()
     st.t["locality"] = round(time.time() - t0, 2)
 
-    # 5. through real machines
+    # 5. layering on hand-made TriggerData
     t0 = time.time()
-    target = 700 if quick else 15000
+    if not layering_check(ctx, st, 300 if quick else 5000):
+        return done()
+    st.t["layering"] = round(time.time() - t0, 2)
+
+    # 6. through real machines
+    t0 = time.time()
+    target = 2500 if quick else 30000
     i = 0
     while i < target and ctx.left() > 8:
         scns = []
